@@ -26,6 +26,10 @@ type Behaviour struct {
 	// reject-with: ask for the transaction, then reject it with this code and reason (%TX% = its id)
 	RejCode   wire.RejectCode
 	RejReason string
+	// GD = "flip": the getdata this peer answers a transaction inv with names the OTHER tx inv type
+	// (InvTypeTx for an announced InvTypeWitnessTx and vice versa), as a peer without witness
+	// support or with another encoding preference does; it still asks for the same transaction.
+	GD string
 }
 
 func (b Behaviour) String() string {
@@ -48,6 +52,9 @@ func (b Behaviour) String() string {
 	}
 	if b.Tx != "" {
 		s += " tx=" + b.Tx
+	}
+	if b.GD != "" {
+		s += " gd=" + b.GD
 	}
 	return s
 }
@@ -556,6 +563,15 @@ func (s *session) handle(m wire.Message) {
 				continue
 			}
 			atomic.AddInt32(&p.GotInvTx, 1)
+			if p.B.GD == "flip" {
+				other := *iv
+				if iv.Type == wire.InvTypeTx {
+					other.Type = wire.InvTypeWitnessTx
+				} else {
+					other.Type = wire.InvTypeTx
+				}
+				iv = &other
+			}
 			switch p.B.Tx {
 			case "accept":
 				gd := wire.NewMsgGetData()
@@ -593,7 +609,7 @@ func (s *session) handle(m wire.Message) {
 		}
 
 	case *wire.MsgTx:
-		if p.B.Tx == "confirm-after-release" && atomic.AddInt32(&p.GotTx, 1) > 1 {
+		if n := atomic.AddInt32(&p.GotTx, 1); p.B.Tx == "confirm-after-release" && n > 1 {
 			rj := wire.NewMsgReject(wire.CmdTx, wire.RejectDuplicate, "transaction already exists")
 			rj.Hash = msg.TxHash()
 			s.send(rj)
